@@ -63,8 +63,9 @@ def apply_f(name, b):
 
 
 class OsProxy(object):
-    def __init__(self, log, child_fd_get, stdin_fd, short=None):
+    def __init__(self, log, child_fd_get, stdin_fd, short=None, out_fd=None):
         self.log, self.cfd, self.sfd = log, child_fd_get, stdin_fd
+        self.ofd = stdin_fd if out_fd is None else out_fd
         self.short = short           # the child's terminal takes at most this many bytes per write (a nearly full queue; a non-blocking descriptor)
 
     def read(self, fd, n):
@@ -86,7 +87,7 @@ class OsProxy(object):
         n = os.write(fd, data)
         if fd == self.cfd():
             self.log.append(['wc', bytes(data[:n]).hex()])
-        elif fd == self.sfd:
+        elif fd == self.ofd:
             self.log.append(['ws', bytes(data[:n]).hex()])
         return n
 
@@ -103,6 +104,10 @@ def session(arg):
     open(cp, 'w').write(CHILD)
     os.mkfifo(fifo)
     om, osl = pty.openpty()
+    # standard output may be something else than the terminal the keys come from (script | tee log): the terminal to put into raw mode, and
+    # back, is the one on standard input
+    pr, pw = os.pipe() if case.get('split_out') else (None, None)
+    outfd = osl if pw is None else pw
     # the user's terminal: cooked (canonical, echo) but no output post-processing, so that bytes can be compared exactly
     a = termios.tcgetattr(osl)
     a[1] &= ~termios.OPOST
@@ -117,7 +122,7 @@ def session(arg):
     raw_set = threading.Event()
     out = dict(case=case)
     saved_stdout = sys.stdout
-    sys.stdout = io.TextIOWrapper(os.fdopen(os.dup(osl), 'wb', buffering=0), write_through=True)
+    sys.stdout = io.TextIOWrapper(os.fdopen(os.dup(outfd), 'wb', buffering=0), write_through=True)
     log = []
     logs = {}
     p = None
@@ -134,7 +139,7 @@ def session(arg):
                 os.close(fd_)
         out['child_fd'] = p.child_fd
         p.STDIN_FILENO = osl
-        p.STDOUT_FILENO = osl
+        p.STDOUT_FILENO = outfd
         if case.get('logs'):
             mk = (lambda: io.StringIO()) if case.get('encoding') else (lambda: io.BytesIO())
             logs = dict(read=mk(), send=mk())
@@ -157,6 +162,23 @@ def session(arg):
                 time.sleep(0.004)
             return False
         wait(lambda: os.path.exists(rp))
+        # an earlier, short interact() session on the same object (ended at once by the escape character): what it leaves behind must not
+        # change what the session under test shows
+        if case.get('twice') and case.get('esc'):
+            def first_user():
+                for _ in range(400):
+                    if not (termios.tcgetattr(osl)[3] & termios.ICANON):
+                        break
+                    time.sleep(0.005)
+                os.write(om, case['esc'].encode('latin-1'))
+            th1 = threading.Thread(target=first_user, daemon=True); th1.start()
+            try:
+                p.interact(escape_character=case['esc'])
+            except Exception as e:      # noqa
+                out['first_interact_error'] = type(e).__name__
+            th1.join(3)
+            while select.select([om], [], [], 0.05)[0]:
+                os.read(om, 65536)
         # pending text: the child prints it, a timed-out expect_exact reads it without handing it back
         pend = case.get('pending', '')
         if pend:
@@ -188,12 +210,14 @@ def session(arg):
 
         def drain():
             while not stop.is_set():
-                r, _, _ = select.select([om], [], [], 0.02)
-                if r:
+                r, _, _ = select.select([om] + ([pr] if pr is not None else []), [], [], 0.02)
+                for fd_ in r:
                     try:
-                        display.extend(os.read(om, 65536))
+                        d_ = os.read(fd_, 65536)
                     except OSError:
                         return
+                    if pr is None or fd_ == pr:
+                        display.extend(d_)          # (with a separate standard output the terminal only carries its own echo)
         th_d = threading.Thread(target=drain, daemon=True)
         th_d.start()
         typed = bytearray()
@@ -257,7 +281,7 @@ def session(arg):
                 raw_set.set()
             return r
         tty.setraw = setraw
-        PS.os = OsProxy(log, lambda: p.child_fd, osl, case.get('short'))
+        PS.os = OsProxy(log, lambda: p.child_fd, osl, case.get('short'), outfd)
         th_u.start()
         log0 = {k: len(v.getvalue()) for k, v in logs.items()}
         esc = case.get('esc', chr(29))
@@ -319,7 +343,7 @@ def session(arg):
                 p.close(force=True)
         except Exception:
             pass
-        for fd in (om, osl):
+        for fd in (om, osl) + ((pr, pw) if pr is not None else ()):
             try:
                 os.close(fd)
             except OSError:
@@ -468,6 +492,10 @@ CORPUS = [
     dict(steps=[['burst_exit', 100000]], esc=chr(29)),
     dict(steps=[S_(b'bye'), ['quit']], esc=chr(29)),
     dict(steps=[S_(b'bye'), ['quit']], esc=chr(29), odd_tty=True),
+    dict(steps=[S_(b'to the pipe'), T(b'abc' + ESC + b'xyz')], esc=chr(29), split_out=True),
+    dict(steps=[S_(b'bye'), ['quit']], esc=chr(29), split_out=True, poll=True),
+    dict(steps=[S_(b'more'), T(b'ab' + ESC)], esc=chr(29), pending='hello world, this is pending text', twice=True),
+    dict(steps=[T(ESC)], esc=chr(29), pending='pending after a first session', W=3, twice=True),
     dict(steps=[S_(b'x'), T(b'ab' + ESC)], esc=chr(29), odd_tty=True, poll=True),
     # poll mode with a descriptor number beyond what select() accepts (the reason use_poll exists): output, keystrokes, child exit
     dict(steps=[S_(b'last words'), ['quit']], esc=chr(29), poll=True, highfd=True),
@@ -538,10 +566,15 @@ def rand_case(rng):
         case['esc'] = 'Q'          # the filter runs before the escape test
     if case['poll'] and rng.random() < 0.5:
         case['highfd'] = True
-    if rng.random() < 0.25:
+    if rng.random() < 0.25 and total <= 200:
+        # (with a terminal that takes a byte or three per write, long keystroke streams would still be on their way when the session is wound up)
         case['short'] = rng.choice([1, 3, 7])
     if rng.random() < 0.3:
         case['odd_tty'] = True
+    if rng.random() < 0.25:
+        case['twice'] = True
+    if rng.random() < 0.25 and not case['pending']:
+        case['split_out'] = True
     return case
 
 
